@@ -169,6 +169,21 @@ def del (t : Table) (pk : Bytes) : Table × Res :=
     -- delRowCache: row.Ty = None, delete(rowmap, primary)
     let t1 : Table := { t with rows := t.rows.set i { r with ty := .none }, rowmap := assocDel t.rowmap pk }
     if r.ty = .add then (t1, .ok)
+    else
+      -- the Del record carries the row as the db holds it (repo commit 24b2bb6)
+      (addRowCache t1 { r with ty := .del, data := match r.old with | some o => o | none => r.data }, .ok)
+  | .stored p d => (addRowCache t ⟨.del, p, d, none⟩, .ok)
+
+/-- `Table.Del` as it was before commit 24b2bb6 (the Del record of a cached Update row carried the
+NEW data), kept as a regression witness. -/
+def delOld (t : Table) (pk : Bytes) : Table × Res :=
+  match findRow t pk with
+  | .missing => (t, .notfound)
+  | .undecodable => (t, .decode)
+  | .dangling => (t, .panic)
+  | .cached i r =>
+    let t1 : Table := { t with rows := t.rows.set i { r with ty := .none }, rowmap := assocDel t.rowmap pk }
+    if r.ty = .add then (t1, .ok)
     else (addRowCache t1 { r with ty := .del }, .ok)
   | .stored p d => (addRowCache t ⟨.del, p, d, none⟩, .ok)
 
@@ -386,7 +401,8 @@ inductive Flag where
 /-- the operation sequences the row cache merges correctly, described on the map side only
 (`m0` = the map at the last save, `fl` = what has been buffered per key since then): for a key that
 was NOT stored at the last save anything goes; for a stored key there is no operation after a
-buffered Del and no Del after a buffered Update/Replace.  `none` = the sequence leaves the class. -/
+buffered Del (Update/Replace … then Del is fine since repo commit 24b2bb6).  `none` = the sequence
+leaves the class. -/
 def goodStep (m0 : Spec) (fl : Bytes → Flag) (op : Op) : Option (Bytes → Flag) :=
   match m0 op.pk with
   | none => some fl
@@ -395,7 +411,7 @@ def goodStep (m0 : Spec) (fl : Bytes → Flag) (op : Op) : Option (Bytes → Fla
     | .deleted => none
     | .written =>
       (match op with
-       | .del _ => none
+       | .del _ => some (fun p => if p = op.pk then .deleted else fl p)
        | _ => some fl)
     | .fresh =>
       (match op with
